@@ -632,6 +632,9 @@ func (p *Path) eval(fr *frame, ins ssa.Value) Value {
 		p.unsupported("IndexAddr on %T", x)
 	case *ssa.Index:
 		x := p.get(fr, in.X)
+		if xs, ok := x.(*Term); ok && xs.Sort == SStr {
+			return p.stringIndex(xs, p.get(fr, in.Index).(*Term))
+		}
 		idx := p.concreteInt(p.get(fr, in.Index), "index")
 		if a, ok := x.(Array); ok {
 			if idx < 0 || idx >= int64(len(a)) {
@@ -658,16 +661,7 @@ func (p *Path) eval(fr *frame, ins ssa.Value) Value {
 			}
 			return v
 		case *Term:
-			// s[i] on a string
-			i := p.get(fr, in.Index).(*Term)
-			inb := mkAnd(mkLe(mkInt(0), i), mkLt(i, mkLen(xx)))
-			if !p.branch(inb, "string-index-in-range") {
-				p.goPanic("string index out of range")
-			}
-			if xx.IsConst() && i.IsConst() {
-				return mkInt(int64(xx.S[i.Int64()]))
-			}
-			return mkApp("str.to_code", SInt, mkSubstr(xx, i, mkInt(1)))
+			return p.stringIndex(xx, p.get(fr, in.Index).(*Term))
 		}
 		p.unsupported("Lookup on %T", x)
 	case *ssa.Slice:
@@ -1088,6 +1082,12 @@ func (p *Path) eqValue(x, y Value) *Term {
 		if !ok {
 			p.unsupported("== between %T and %T", x, y)
 		}
+		if r := byteAtEq(a, b); r != nil {
+			return r
+		}
+		if r := byteAtEq(b, a); r != nil {
+			return r
+		}
 		return mkEq(a, b)
 	case Ptr:
 		b, ok := y.(Ptr)
@@ -1191,4 +1191,37 @@ func (p *Path) inHarnessCode() bool {
 		return strings.Contains(name, "zz_verif_")
 	}
 	return false
+}
+
+// stringIndex: s[i] on a string (a byte as an Int), with the bounds check as a branch.
+func (p *Path) stringIndex(s, i *Term) Value {
+	inb := mkAnd(mkLe(mkInt(0), i), mkLt(i, mkLen(s)))
+	if !p.branch(inb, "string-index-in-range") {
+		p.goPanic("string index out of range")
+	}
+	if s.IsConst() && i.IsConst() {
+		return mkInt(int64(s.S[i.Int64()]))
+	}
+	return mkApp("str.to_code", SInt, mkSubstr(s, i, mkInt(1)))
+}
+
+// byteAtEq: code(s[i]) == c for the first or last byte of s is a prefix/suffix test
+// (the index was already checked to be in range), which matches how library calls are encoded.
+func byteAtEq(a, c *Term) *Term {
+	if a.Op != "str.to_code" || !c.IsConst() || c.Sort != SInt || !c.I.IsInt64() || c.Int64() < 0 || c.Int64() > 255 {
+		return nil
+	}
+	sub := a.Args[0]
+	if sub.Op != "str.substr" || !sub.Args[2].IsConst() || sub.Args[2].Int64() != 1 {
+		return nil
+	}
+	s, off := sub.Args[0], sub.Args[1]
+	ch := mkStr(string([]byte{byte(c.Int64())}))
+	if off.IsConst() && off.Int64() == 0 {
+		return mkPrefixOf(ch, s)
+	}
+	if off == mkSub(mkLen(s), mkInt(1)) {
+		return mkSuffixOf(ch, s)
+	}
+	return nil
 }
